@@ -21,7 +21,7 @@ refill4`; BLAKE-224/256/384/512 digests (`Compressor::put_block`, `finalize`); J
 and `jh f8` on the dispatching `Compressor` path.  Plus the vector layer itself (`simd <backend> …`), one
 model answer per backend, as before.
 """
-import os
+import os, re
 import cclib, gens
 import inventory_dispatch as _inv
 from cclib import XorShift
@@ -209,10 +209,61 @@ def inventory(pid, tier):
     }}}
 
 
+
+def extra(pid, tier, seed):
+    """Which `Machine` do the three dispatch macros really instantiate in each built configuration?  The harness
+    crate has no `std` feature, so its own `dispatch!` / `dispatch_light128!` / `dispatch_light256!` invocations take
+    the compile-time ladder under the configuration's static target features (`which <macro>` prints those features
+    and the class of `type_name::<M>()`); the model's `CC.Simd.Dispatch.select · .nostd` (proved sound:
+    `dispatch_sound`) is asked through the driver (`dispatch select <macro> <features>`).  A difference is a concrete
+    failing configuration: that build runs code for an instruction set it was not compiled for (or a slower / other
+    backend than the ladder the theorems are about)."""
+    import subprocess
+    cfgs = list(PROP["cfgs_" + tier] if ("cfgs_" + tier) in PROP else PROP["cfgs_quick"])
+    if PROP.get("dynamic_cfgs"):
+        cfgs += [c for c in PROP["dynamic_cfgs"](tier) if c not in cfgs]
+    res, violations, n = {}, [], 0
+    needs = {"generic": "00000", "sse2": "10000", "ssse3": "11000", "sse41": "11100", "avx2": "11111"}
+    for cfg in cfgs:
+        ok, binp, _ = cclib.harness_build(cfg)
+        if not ok:
+            continue
+        ops = ["which dispatch", "which light128", "which light256"]
+        impl = cclib.run_lines(binp, ops)[0]
+        if impl is None or len(impl) < 3:
+            continue
+        row = {}
+        for op, line in zip(ops, impl):
+            n += 1
+            m = re.match(r"feats=([01]{5}) sel=(\S+)$", line)
+            mac = op.split()[1]
+            if not m:
+                rp = cclib.write_replay(pid, seed, "which-" + cfg, "# cfg=%s\n# harness answered %r to `%s`\n%s\n" % (cfg, line, op, op))
+                violations.append(("dispatch selection unreadable in " + cfg, rp, True))
+                continue
+            feats, sel = m.group(1), m.group(2)
+            if cfg.startswith("nosimd"):
+                want = "sel=generic"
+            else:
+                out = cclib.run_lines(cclib.DRV, ["dispatch select %s %s" % (mac, feats)])[0]
+                want = out[0] if out else "?"
+            row[mac] = "%s %s" % (feats, sel)
+            sound = sel in needs and all(f == "1" or r == "0" for f, r in zip(feats, needs[sel]))
+            if "sel=" + sel != want or not sound:
+                body = ("# cfg=%s\n# property=%s: %s! expanded without `std` under static target features sse2/ssse3/sse4.1/avx/avx2 = %s\n"
+                        "# implementation instantiates the %s machine; model ladder (CC.Simd.Dispatch.select, dispatch_sound): %s%s\n%s\n"
+                        % (cfg, pid, mac, feats, sel, want, "" if sound else "; the selected machine needs features this build does not enable", op))
+                rp = cclib.write_replay(pid, seed, "which-" + cfg, body)
+                violations.append(("compile-time dispatch selects another machine than the modelled ladder in " + cfg, rp, False))
+        res[cfg] = row
+    return {"coverage": {"compile_time_selection": res}, "violations": violations, "evaluations": n}
+
+
 PROP = dict(
     theorems=THEOREMS,
     gen=gen_C03,
     inventory=inventory,
+    extra=extra,
     cfgs_quick=["std-release", "nosimd-release", "nostd-ssse3-release", "nosimd-debug"],
     cfgs_thorough=list(cclib.NOSTD_CFGS) + ["std-debug", "std-release", "nosimd-debug", "nosimd-release"],
 )
